@@ -23,6 +23,13 @@ RULE = (
     "of the complete old or the complete new file. A class is (entry kinds in the set, path/target features) for the "
     "round trip and (crash plan, old/new outcome) for the sweep; distinct_nontrivial counts the classes observed."
 )
+RULE += (
+    " Fault variants per scenario: crash before each mutating syscall, crash at the first Python line after each "
+    "rename/link/symlink returns, torn write at each open-for-write, and each write()/writelines() call on a file "
+    "opened for writing below the scratch root failing after half of its data with OSError(ENOSPC) resp. "
+    "KeyboardInterrupt (process alive, the code's own error handling runs; afterwards old-or-new, and a later "
+    "fault-free run must give the complete new state)."
+)
 ASSUMPTIONS = [
     "Excl: paths or targets containing a line break (\\n, \\r): the format is line based",
     "Excl: symlink *locations* containing '->' as a separate word: 'sym A -> B -> C t' is inherently ambiguous in the "
@@ -344,7 +351,7 @@ def check_sweep(scr, old, new, only_plan=None):
         return ([{"kind": "sweep", "old": old, "new": new, "plan": None, "msg": f"fault-free flush failed: {status} {value!r}"}], {}, 0)
     new_obs = observe()
     viol, classes, n = [], {}, 0
-    for plan in sw.plans(events):
+    for plan in sw.plans(events, scr.nwrites):
         if only_plan is not None and list(plan) != list(only_plan):
             continue
         n += 1
@@ -369,10 +376,24 @@ def check_sweep(scr, old, new, only_plan=None):
                     f"bytes={obs['bytes']!r} read={obs['read']!r}; old bytes={old_obs['bytes']!r} new bytes={new_obs['bytes']!r}"[:900],
                 }
             )
-        if status != "crashed" and plan[1] <= len(events):
+        if not sw.fired(status):
             viol.append({"kind": "sweep", "old": old, "new": new, "plan": list(plan), "msg": f"engine: plan {plan} did not fire ({status})"})
-        ev = events[plan[1]][0] if plan[1] < len(events) else "end"
-        key = f"sweep:{plan[0]}@{ev}:{out}"
+        if plan[0] in sw.WRITE_FAULTS:
+            # the process survived the failed write: a later fault-free flush must give the complete new file
+            sw.rerun(op)
+            obs2 = observe()
+            if obs2 != new_obs:
+                out += "+recovery-bad"
+                viol.append(
+                    {
+                        "kind": "sweep",
+                        "old": old,
+                        "new": new,
+                        "plan": list(plan),
+                        "msg": f"after {where} a later fault-free flush does not produce the complete new file: bytes={obs2['bytes']!r} read={obs2['read']!r}"[:900],
+                    }
+                )
+        key = f"sweep:{sw.plan_class(events, plan)}:{out}"
         classes[key] = classes.get(key, 0) + 1
     return viol, classes, n
 
